@@ -229,7 +229,13 @@ func (g *simGen) stmts() []*stmt {
 		return []*stmt{g.emitStmt()}
 	}
 	// weights: emit, probe, local, tbc, do, if, for, while, break, goto, return, callstmt, error, rterr, assignG
-	w := []int{8, 4, 2, 3, 2, 2, 2, 1, 0, 0, 1, 2, 1, 1, 1}
+	w := []int{8, 4, 2, 3, 2, 2, 2, 1, 0, 0, 1, 2, 1, 1, 1, 0}
+	if len(g.labels) < 3 && !(len(g.blockLabel) > 0 && g.blockLabel[len(g.blockLabel)-1] != "" && g.labelUsed[g.blockLabel[len(g.blockLabel)-1]]) {
+		w[15] = 1
+		if g.o.mode == "close" {
+			w[15] = 3
+		}
+	}
 	switch g.o.mode {
 	case "close":
 		w[3], w[4], w[6], w[10], w[12] = 8, 4, 3, 2, 2
@@ -349,6 +355,23 @@ func (g *simGen) stmts() []*stmt {
 		return []*stmt{{k: sError, exps: []*expr{g.errVal()}, level: lvl}}
 	case 13:
 		return []*stmt{{k: sRtErr, n: int64(g.t.Choose(4))}}
+	case 15:
+		// K = 0; [local x <close> = mkc()]; ::top::; K = K + 1; do body end; if K < n then goto top end
+		// (nothing is declared in this block between the label and the goto)
+		kname := fmt.Sprintf("K%d", g.id())
+		lbl := fmt.Sprintf("T%d", g.id())
+		out := []*stmt{{k: sAssignG, name: kname, exps: []*expr{cst(intv(0))}}}
+		if g.t.Chance(2, 3) {
+			out = append(out, &stmt{k: sLocalClose, name: fmt.Sprintf("x%d", g.id()), exps: []*expr{{k: eMkc, n: int64(g.id()), args: []*expr{cst(intv(0)), cst(intv(0))}}}})
+		}
+		out = append(out, &stmt{k: sLabel, name: lbl})
+		out = append(out, &stmt{k: sAssignG, name: kname, exps: []*expr{{k: eAdd, args: []*expr{{k: eGlobal, name: kname}, cst(intv(1))}}}})
+		out = append(out, &stmt{k: sDo, body: g.block(1+g.t.Choose(2), false)})
+		out = append(out, &stmt{k: sIf, exps: []*expr{{k: eLt, args: []*expr{{k: eGlobal, name: kname}, cst(intv(int64(2 + g.t.Choose(2))))}}}, body: []*stmt{{k: sGoto, name: lbl}}})
+		return out
+	case 14:
+		name := fmt.Sprintf("G%d", 1+g.t.Choose(3))
+		return []*stmt{{k: sAssignG, name: name, exps: []*expr{g.simple()}}}
 	default:
 		name := fmt.Sprintf("G%d", 1+g.t.Choose(3))
 		return []*stmt{{k: sAssignG, name: name, exps: []*expr{g.simple()}}}
